@@ -82,6 +82,9 @@ func H_C10_pipe() {
 	b := rawMux(tb, 2)
 	ca, _ := b.Open(ida)
 	cb, _ := b.Open(idb)
+	if c, ok := ca.(*conn); ok {
+		vassert(cap(c.readC) == 2, "configured-queue-length-ignored")
+	}
 	go b.reader()
 
 	rbuf := nondetBytes(maxPayloadSize)
